@@ -56,9 +56,10 @@ theorem ch11_unpack_state_independent (t : Model.Ch11.State) (buf : Bytes)
       Model.Ch11.unpack { Model.Ch11.fresh with data_checksum_size := t.data_checksum_size } buf :=
   Lemmas.Ch11.ch11_unpack_state_independent t buf h
 
-/-! ### PTPTime, RTCTime: `unpack` has no state argument at all in the model — the result is a function of the
-    bytes by construction; `pack` changes nothing. -/
-theorem ptp_unpack_pack_pure (t : Model.Ch11.PTP) (buf : Bytes) :
-    (Model.Ch11.PTP.unpack buf = Model.Ch11.PTP.unpack buf) ∧ (t.pack = t.pack) := ⟨rfl, rfl⟩
+/-! ### PTPTime, RTCTime
+  In the model `PTP.unpack : Bytes → R PTP` and `rtcUnpack : Bytes → R Nat` take no state argument and
+  `PTP.pack` / `rtcPack` return no state: the two classes assign all of their (one or two) fields in a single
+  tuple assignment and `pack` assigns nothing, so state independence and idempotence hold by the shape of the
+  model; the correspondence histories (generic C13 + `corr_C13`) are what ties that shape to the code. -/
 
 end Acra.Props.C13
